@@ -9,7 +9,7 @@ func init() {
 			{Dir: "lib/dispatchcloud"},
 		},
 		Batches: 6, BatchesT: 12, Timeout: 15 * time.Minute, TimeoutT: 120 * time.Minute,
-		MinEvals: 300,
+		MinEvals: 1000,
 		Rule: "stream e2e-C15: case = one end-to-end run (50-100 containers quick, up to 500 thorough; mixed priorities and sizes, some initially Locked/Running without a process, some on hold, some added late) of the real scheduler + real worker.Pool " +
 			"over loopback SSH against the stub cloud with a PRNG fault schedule (per-VM slow boot / never boots / broken-after / crunch-run missing / reports broken / crash rate / arv-mount deadlock / unkillable; destroy error rate 0-40%, create and list rate limits, " +
 			"quota error in thorough), API changes while containers run, operator hold/drain, and one dispatcher kill+restart (0-2 in thorough). After the planned actions fired the fault schedule stops injecting (new VMs healthy, no injected cloud errors) and the logical clock " +
